@@ -237,6 +237,8 @@ def run_case(case):
             continue
         phs = [rb(w) for rb in rbs]
         refs = [model.RefModel(b.spec, ph) for b, ph in zip(builts, phs)]
+        if any(r.amplification() > 1e3 for r in refs):
+            continue        # a chaotic SingleShooting recursion: round-off differences are amplified alike
         pvv = float(Fpv(w, view.p0))
         scale = 1.0 + max([float(np.max(np.abs(v))) for ph in phs for k, v in ph.items() if isinstance(v, np.ndarray) and v.size])
         res["counters"]["points"] += 1
